@@ -118,6 +118,16 @@ pub fn gen_c03(g: &mut Gen, tier: &str) {
 
 pub fn gen_c04(g: &mut Gen, tier: &str) {
     let n = if tier == "thorough" { 150_000 } else { 5_000 };
+    // the two ends of the range, with offsets pointing outward and inward: the result is representable although a local
+    // intermediate value is not (and the other way round)
+    for o in [0i128, 1, -1, 3_600, -3_600, 86_399, -86_399] {
+        for (d, nn) in [(DAY_MAX as i128, NPD - 1), (DAY_MAX as i128, 84_600 * NPS), (DAY_MAX as i128 - 1, 84_600 * NPS), (DAY_MAX as i128 - 1, 0),
+                        (DAY_MIN as i128, 0), (DAY_MIN as i128, 1_800 * NPS), (DAY_MIN as i128 + 1, 1_800 * NPS), (DAY_MIN as i128 + 1, NPD - 1)] {
+            let l = d * NPD + nn + o * NPS;
+            if l < DAY_MIN as i128 * NPD || l >= (DAY_MAX as i128 + 1) * NPD { continue; }
+            for u in 0..7i128 { for c in [0i128, 1, 2] { for op in ["dt_add", "dt_sub"] { g.push(true, Input::new(op, vec![u, d, nn, o, c])); } } }
+        }
+    }
     for k in 0..n {
         let v = dt_pool(g);
         let u = (g.rng.next() % 7) as i128;
@@ -201,6 +211,14 @@ pub fn gen_c08(g: &mut Gen, tier: &str) {
     for x in &[0i128, 1, NPD - 1, NPD, NPD + 1, u64::MAX as i128, u64::MAX as i128 - 1, 1 << 63, (1 << 63) - 1, 2 * NPD, NPS] {
         g.push(true, Input::new("time_ctor", vec![2, *x]));
     }
+    // arguments that alias an in-day value under a narrowing conversion (k * 2^32, 2^16, 2^8 of the unit, plus a remainder)
+    for k in 1..=4i128 { for unit in [1i128, NPS, 60 * NPS, 3_600 * NPS] { for r in [0i128, 1, 86_399 * NPS + 999_999_999, 43_200 * NPS] {
+        let x = k * (1i128 << 32) * unit + r; if x <= u64::MAX as i128 { g.push(true, Input::new("time_ctor", vec![2, x])); }
+    } } }
+    for k in 1..=3i128 { for sh in [8u32, 16, 31] { for r in [0i128, 1, 59, 3_599, 86_399] {
+        let x = k * (1i128 << sh) * 86_400 + r; if x <= U32M { g.push(true, Input::new("time_ctor", vec![1, x])); }
+        let y = (k << sh) + r % 60; if y <= U32M { g.push(true, Input::new("time_ctor", vec![0, y, r % 60, r % 60])); g.push(true, Input::new("time_ctor", vec![0, r % 24, y, r % 60])); g.push(true, Input::new("time_ctor", vec![0, r % 24, r % 60, y])); }
+    } } }
     if tier == "thorough" {
         for s in 0..86_400i128 { g.push(true, Input::new("time_ctor", vec![1, s])); }
     }
@@ -312,7 +330,11 @@ pub fn gen_c07(g: &mut Gen, tier: &str) {
         if k % 3 == 0 {
             let (na, nb) = (nanos_pool(g), nanos_pool(g));
             let nb = if k % 2 == 0 { na } else { nb };
-            g.push(true, Input::new("dt_ms", vec![a, na, 0, b, nb, 0]));
+            // offsets must not matter: months are counted between the instants' UTC calendar readings
+            let (oa, ob) = match k % 4 { 0 => (0, 0), 1 => { let o = off_pool(g); (o, o) } _ => (off_pool(g), off_pool(g)) };
+            let ok = |d: i128, n: i128, o: i128| { let l = d * NPD + n + o * NPS; l >= DAY_MIN as i128 * NPD && l < (DAY_MAX as i128 + 1) * NPD };
+            let (oa, ob) = (if ok(a, na, oa) { oa } else { 0 }, if ok(b, nb, ob) { ob } else { 0 });
+            g.push(true, Input::new("dt_ms", vec![a, na, oa, b, nb, ob]));
         } else {
             g.push(a != b, Input::new("date_ms", vec![a, b]));
         }
